@@ -69,12 +69,12 @@ def inverse_shape(chk, cfg, b, rule, what, want_source):
     chk.ob(rule + "/source", what, src is not None and want_source(src), "the inverse is built from %s, expected the forward table" % (show(src) if src else "?"), b["span"])
     ok = True
     seen = {}
+    roles = {}
     for p in conts:
         item, nxt = loop_item(p)
         if item is None:
             chk.cannot(rule, what, "loop element not recognised", b["span"])
             return None
-        codon, amino = F(item, 0), F(item, 1)
         bg = [g for g in p.guards if g[0] == "bool" and an.is_call(g[1], re.compile(r"HashMap::<.*>::contains_key::<"))]
         if len(bg) != 1:
             chk.cannot(rule, what, "iteration path is not keyed by a single contains_key test: " + p.describe()[:200], b["span"])
@@ -88,14 +88,24 @@ def inverse_shape(chk, cfg, b, rule, what, want_source):
             ok = False
             continue
         im, ik, iv = ins[0][1][0], ins[0][1][1], ins[0][1][2]
-        same_key = key == amino and ik == amino
+        # roles by use (the two components of a row have different types, so the key component is the amino acid and the cloned
+        # one the codon, whether the row is a tuple or a two-field struct): both must be distinct components of this element
+        def comp_of(t):
+            while isinstance(t, tuple) and t[0] == "deref":
+                t = t[1]
+            return t[2] if isinstance(t, tuple) and t[0] == "F" and t[1] == item else None
+        amino = key
+        same_key = comp_of(key) is not None and ik == key
+        if roles.setdefault("amino", comp_of(key)) != comp_of(key):
+            same_key = False
         same_map = m[0] == "loopvar" and im[0] in ("local", "loopvar") and (im[1] == m[2] if im[0] == "local" else im == m)
         if present:
             val_ok = opt_kind(iv)[0] == "None"
             want = "None"
         else:
             k, v = opt_kind(iv)
-            val_ok = k == "Some" and an.is_call(v, re.compile(r"as std::clone::Clone>::clone$"), (codon,))
+            val_ok = k == "Some" and an.is_call(v, re.compile(r"as std::clone::Clone>::clone$")) and len(v[2]) == 1 and \
+                comp_of(v[2][0]) is not None and comp_of(v[2][0]) != comp_of(key)
             want = "Some(codon.clone())"
         seen[present] = True
         chk.ob(rule, "%s [%s]" % (what, "present" if present else "absent"), same_key and same_map and val_ok,
